@@ -210,6 +210,8 @@ def judge(script_name, api, obs, rerun=False):
     f_cmds = [e for e in ev if e[2] == 'dev-req' and e[3] == 'b']
     f_started = any(e[2:4] == ('job-start', 'f') for e in ev)
     f_stopped = any(e[2:4] == ('stop-delivered', 'f') for e in ev)
+    if f_stopped and api in ('agent', 'stop_job'):
+        return ('stop-aimed-at-one-job-delivered-to-another', 'the follower received the stop issued for job j')
     if f_stopped and api in ('stop_current', 'stop_all'):
         pass        # the first job had ended and the follower was the current job: it was the target
     elif api == 'stop_all' and not f_started:
@@ -277,6 +279,10 @@ def plan(tier):
                     out.append((s, api, 0, 1, rr, GATE_POINTS, WINDOW_AFTER_STOP))
             else:
                 out.append((s, api, 1, 16, rr, GATE_POINTS, WINDOW_AFTER_STOP))
+    # the stop arriving "as the script finishes": gate positions over the whole run of the finite scripts
+    out.append(('straight', 'stop_job', 1, 16, True, 260, 40))
+    out.append(('straight', 'agent', 0 if tier == 'quick' else 1, 1 if tier == 'quick' else 16, True, 260, 40))
+    out.append(('straight', 'stop_current', 0 if tier == 'quick' else 1, 1 if tier == 'quick' else 16, True, 260, 40))
     # the script as a background job (spawn_job) next to a queued follower
     for s in ('infinite', 'timed', 'time-of-day'):
         for api in ('bg:stop_job', 'bg:stop_all'):
@@ -295,7 +301,7 @@ def run(tier, seed):
     viol = {}
     tot_exec = tot_pts = 0
     for (s, api, b, shard, rr, gp, wn), st in zip(tasks, results):
-        key = '%s/%s/bound%d' % (s, api, b)
+        key = '%s/%s/bound%d/gate%d' % (s, api, b, gp)
         cur = per.setdefault(key, dict(schedules=0, stop_positions=0, outcomes=0))
         cur['schedules'] += st['execs']
         cur['stop_positions'] = max(cur['stop_positions'], st['gate_positions'])
